@@ -1,6 +1,7 @@
 package main
 
 import (
+	"strings"
 	"golang.org/x/tools/go/ssa"
 )
 
@@ -8,9 +9,9 @@ func init() {
 	Register(&Property{
 		ID: "C17",
 		Decides: "(R17.1) SuffrageJoinProcessor.PreProcess accepts (nil reason, nil error) only if the candidate is a known candidate, its start matches, it is not expired (deadline >= height), it is not already a member, it was not pre-processed in this block, the operation is signed with the candidate's registered key, the constraint function passed and CheckFactSignsBySuffrage passed; the accepted candidate is recorded as pre-processed; " +
-			"(R17.2) CheckFactSignsBySuffrage counts a sign only if (node, signer key) is a suffrage member and succeeds only if the ratio is not below the threshold; node operations reject duplicated sign nodes; " +
+			"(R17.2) CheckFactSignsBySuffrage counts a sign only if (node, signer key) is a suffrage member that was not counted before, and succeeds only if the ratio is not below the threshold; node operations reject duplicated sign nodes; " +
 			"(R17.3) disjoin is accepted only for a member with matching start, signed with the member's key, not pre-processed and not expelled in this block; expel only for a member within the operation's height window, not pre-processed; candidate registration only for a non-member that is not an unexpired candidate; " +
-			"(R17.4) the new suffrage height is the existing height + 1 and new members join at height + 1.",
+			"(R17.4) the new suffrage height is the existing height + 1 and new members join at height + 1.; (R17.6) an operation fetched from a remote node for a proposal reaches the processors only after IsValid succeeded and its hash equals the requested one; (R17.7) the merged suffrage state value is built only for a non-empty member list — violated today, known finding",
 		NotDecided: "uniqueness of members for every mix of operations (follows from the gates together with map semantics); order independence beyond C10's sorted/filter-only merged slices; exact float arithmetic of the sign ratio at equality (false rejections only).",
 		Run:        runC17,
 	})
@@ -28,6 +29,51 @@ func acceptExits(c *Ctx, fn *ssa.Function) []ssa.Instruction {
 }
 
 func runC17(c *Ctx) {
+	// R17.7: the closed value is a suffrage: it keeps at least one member (NewSuffrage refuses an empty
+	// node list, so an empty state value can never be turned into a suffrage again)
+	c.Rule("R17.7", "MustPass")
+	if fn := c.Need("isaac/operation.(*SuffrageJoinStateValueMerger).closeValue"); fn != nil {
+		var vals []ssa.Instruction
+		for _, r := range Returns(fn) {
+			if len(r.Results) == 2 && strings.HasPrefix(c.D(RetVal(r, 0)), "isaac.NewSuffrageNodesStateValue(") {
+				vals = append(vals, r)
+			}
+		}
+		for _, r := range vals {
+			var gates []Gate
+			for _, call := range c.CallsTo(fn, "isaac.NewSuffrageNodesStateValue") {
+				list := CallArg(call, 1)
+				sizes := []string{"len(" + c.D(list) + ")"}
+				if mk, ok := list.(*ssa.MakeSlice); ok {
+					sizes = append(sizes, c.D(mk.Len))
+				}
+				for _, sz := range sizes {
+					gates = append(gates, GCmp(globEscape(sz), ">=", "1"), GCmp(globEscape(sz), ">", "0"), GCmp(globEscape(sz), "!=", "0"))
+				}
+			}
+			c.MP(fn, "the new suffrage state value is built only for a non-empty member list", []ssa.Instruction{r}, 1, gates...)
+		}
+	}
+	// R17.6: the processors look only at the (node, key) labels of signs; whoever hands them an
+	// operation must have verified it. An operation fetched from a remote node for a proposal is
+	// handed on only after IsValid (signatures, duplicated sign nodes) and the hash comparison.
+	c.Rule("R17.6", "MustPass")
+	if parent := c.Need("launch.getProposalOperationFunc"); parent != nil {
+		n := 0
+		for _, f := range WithClosures(parent) {
+			for _, st := range c.StoresD(f, "&var:op") {
+				v := c.D(st.(*ssa.Store).Val)
+				if !strings.Contains(v, "getProposalOperationFromRemoteFunc") {
+					continue
+				}
+				n++
+				c.MP(f, "a remotely fetched operation is handed on only after IsValid succeeded", []ssa.Instruction{st}, 1, GOk(globEscape(v+".IsValid(var:isaacparams.NetworkID())")))
+				c.MP(f, "a remotely fetched operation is handed on only if its hash is the requested one", []ssa.Instruction{st}, 1,
+					GTrue(globEscape(v+".Hash().Equal(operationhash)")), GTrue(globEscape("operationhash.Equal("+v+".Hash())")))
+			}
+		}
+		c.Floor(parent, "remote operation hand-overs", n, 1)
+	}
 	// R17.1 --------------------------------------------------------------------------------------
 	c.Rule("R17.1", "MustPass")
 	if fn := c.Need("isaac/operation.(*SuffrageJoinProcessor).PreProcess"); fn != nil {
@@ -81,6 +127,8 @@ func runC17(c *Ctx) {
 				}
 				c.MPEdge(fn, "a sign is counted only if (node, signer) is a suffrage member key", inc, 1,
 					GTrue("suf.ExistsPublickey(signs[ι].Node(), signs[ι].Signer())"))
+				c.MPEdge(fn, "a sign is counted only if its node was not counted before (distinct members)", inc, 1,
+					GFalse("*[signs[ι].Node().String()]#1"), GFalse("*[signs[ι].Node()*]#1"))
 			}
 		}
 	}
